@@ -31,7 +31,7 @@ CLAUSES = {
     "longitudes in their documented range ([0,360); azimuth / hour angle (-180,180]), latitudes in [-90,90]": "proved [ideal, C05_*_rotation]; binary64 searched",
     "the angle between any two directions is unchanged": "proved exactly [ideal, C05_dot_preserved]; binary64 1e-9 deg searched",
     "angular separation = dot-product value (cos theta = sin d1 sin d2 + cos d1 cos d2 cos da), 0..180, symmetric": "proved [ideal, C05_separation]; binary64 1e-9 deg for 1e-7..179.999 deg searched",
-    "relative position angle = cross/dot-product value; antisymmetric": "proved [ideal, C05_position_angle: closed form = atan2(u1.east, u1.north)/cos d1, negates with delta-alpha]; binary64 1e-9 deg searched",
+    "relative position angle = cross/dot-product value; antisymmetric": "proved [ideal, C05_position_angle: closed form (wrapped delta-alpha, two cancellation-free forms of x, both = u1.north2), equals Meeus' quotient form for cos d1 > 0, negates with delta-alpha]; binary64 1e-9 deg searched against a 60-digit reference (known finding position-angle-value-near-pole: both bodies within a millidegree of a pole)",
     "circle_diameter between the largest separation a and 2a/sqrt(3)": "unproved (searched): planar-triangle inequality on the three computed separations, not attempted in Coq",
     "straight_line (angle between the great circles / distance from the great circle)": "unproved (searched against a cross-product reference); correspondence bit-exact",
     "binary64 rounding of all the above": "unproved (searched with the property's tolerances; correspondence is bit-exact with traced libm)",
@@ -270,14 +270,11 @@ def r_triple(rng):
     return out
 
 
-def pa_regime(a1, d1, a2, d2, sep):
-    """call-site suffix for the three places where relative_position_angle still loses digits
-    (measured against the 60-digit reference): delta-alpha formed across the 0/360 seam; the
-    sum sin(dd) + 2 sin d2 cos d1 sin^2(da/2) cancelling beyond 179.99 deg; cos(delta) of a
-    body within a millidegree of a pole"""
-    if abs(a1 - a2) > 180.0: return "-across-seam"
-    if sep > 179.99: return "-near-180"
-    if max(abs(d1), abs(d2)) > 90.0 - 1e-3: return "-near-pole"
+def pa_regime(d1, d2, dev):
+    """known finding C05/position-angle-value-near-pole: both bodies within a millidegree of a
+    pole (cos(delta) from radians next to pi/2) and the deviation small; everything else is
+    reported under the generic key"""
+    if min(abs(d1), abs(d2)) > 89.999 and dev <= 1e-6: return "-near-pole"
     return ""
 
 
@@ -372,12 +369,12 @@ class Oracle:
         if not e <= TOL:
             # alpha1 - alpha2 is formed in the 0..360 representation: across the seam the tiny true
             # difference inherits the rounding of a number near 360 (distinct call-site key)
-            self.add("position-angle-value" + pa_regime(a1, d1, a2, d2, ref), "%s = %r, cross/dot-product value %r (diff %.3g deg, separation %.3g deg)" % (pexpr, p, pref, e, ref), list(args), pexpr)
+            self.add("position-angle-value" + pa_regime(d1, d2, e), "%s = %r, cross/dot-product value %r (diff %.3g deg, separation %.3g deg)" % (pexpr, p, pref, e, ref), list(args), pexpr)
         q = self.call("relative_position_angle", (a2, d1, a1, d2))
         if q is not None and abs(math.sin((a1 - a2) * D2R)) > 1e-12:
             e = abs(angle_diff(q, -p))
             if not e <= TOL:
-                self.add("position-angle-antisymmetry" + pa_regime(a1, d1, a2, d2, ref), "%s = %r but with the right ascensions exchanged %r (sum %.3g deg)" % (pexpr, p, q, e), list(args), pexpr)
+                self.add("position-angle-antisymmetry" + pa_regime(d1, d2, e), "%s = %r but with the right ascensions exchanged %r (sum %.3g deg)" % (pexpr, p, q, e), list(args), pexpr)
 
     def triple(self, t):
         args = tuple(t)
@@ -406,6 +403,15 @@ class Oracle:
             self.add("straight-line-value", "%s = (%r, %r), cross-product value (%r, %r)" % (sexpr, r[0], r[1], psi, om), list(args), sexpr)
 
 
+# nearly coincident pairs on both sides of the 0/360 seam (neither right ascension is 0.0 exactly)
+SEAM_PAIRS = [(1e-09, 23.44, 359.9999998212554, 23.439997306158443),
+              (359.9999998212554, 23.439997306158443, 1e-09, 23.44),
+              (1e-09, -65.35047606189956, 359.99999967519966, -65.3504754532039),
+              (3.5e-07, 10.0, 359.9999996, 10.0000004), (359.9999996, 10.0000004, 3.5e-07, 10.0),
+              (0.0, 28.217910618854102, 359.9999948006034, 28.217907282511174),
+              (359.999999999, 21.262033144139757, 7.346143320319243e-07, 21.262034681122703)]
+
+
 def search(rng, tier, deep):
     mods = load(["Angle", "Coordinates"])
     O = Oracle(mods)
@@ -422,6 +428,8 @@ def search(rng, tier, deep):
         O.pair("galactic2equatorial", "equatorial2galactic", lon, lat, (), ref_gal_inv, "pos")
         a1, d1, a2, d2 = r_pair(rng)
         O.separation(a1, d1, a2, d2)
+        if i < len(SEAM_PAIRS):
+            O.separation(*SEAM_PAIRS[i])
         if i % 4 == 0:
             O.pair2("equatorial2ecliptical", (a1, d1), (a2, d2), (eps,), "pos")
             O.pair2("ecliptical2equatorial", (a1, d1), (a2, d2), (eps,), "pos")
